@@ -21,6 +21,7 @@ import StarsimModel.Generated.Treat_syphilis
 import StarsimModel.Lemmas.InfectionCount
 import StarsimModel.Lemmas.SimCore
 import StarsimModel.Lemmas.Closed
+import StarsimModel.Lemmas.ClosedLife
 
 namespace StarsimModel.C13
 open StarsimModel.Compartments
@@ -762,6 +763,40 @@ theorem C13_closed_run_allowed_moves (s : Sim) (xs : List ClosedEv) (h0 : ∀ a 
     (hr : ∀ x ∈ xs, NonnegRands x.nets) (i : Nat) (a : Agent) (h : s.pop[i]? = some a) :
     ∃ a', (closedRun s xs).pop[i]? = some a' ∧ rank a.fl ≤ rank a'.fl :=
   closedRun_monotone xs s h0 hb hr i a h
+
+/-- **Infection needs an infectious source**: every target of the `set_prognoses` call of a closed step was reached from an
+    agent that is active and infected (SIR: infectious) in the state transmission read. -/
+theorem C13_closed_infection_needs_source (s : Sim) (x : ClosedEv) (hr : NonnegRands x.nets) (e : Inf)
+    (he : e ∈ closedCall s x) :
+    ∃ (u : Nat) (a : Agent), (preInfect s x).pop[u]? = some a ∧ a.present = true ∧ a.fl.infected = true :=
+  closedCall_needs_source s x hr e he
+
+/-- **The disease-free state is absorbing**: from any population in which nobody is flagged infected — over any networks,
+    betas, random numbers (≥ 0), births, deaths and prognosis draws, and any number of steps — nobody is ever infected and
+    every recorded row has `n_infected = 0`.  No compartment is entered out of nothing. -/
+theorem C13_closed_disease_free_absorbing (s : Sim) (xs : List ClosedEv) (h0 : NoInf s.pop)
+    (hr : ∀ x ∈ xs, NonnegRands x.nets) :
+    NoInf (closedRun s xs).pop ∧ ∃ rs : List Row, (closedRun s xs).rows = s.rows ++ rs ∧ rs.length = xs.length ∧
+      ∀ r ∈ rs, r.nI = 0 :=
+  closedRun_noInf xs s h0 hr
+
+/-- non-vacuity: the example networks over a population of three susceptible agents (nobody infected); and the hypothesis
+    is needed — with agent 1 infected (`exClosedSim`) the same inputs give `n_infected = 2` in the first row (example above) -/
+example : NoInf ([newborn, newborn, newborn] : List Agent) ∧
+    (closedRun ⟨0, [newborn, newborn, newborn], [], false⟩ [exClosed, exClosed]).rows.map (fun r => (r.nS, r.nI, r.nR)) =
+      [(3, 0, 0), (3, 0, 0)] := by
+  refine ⟨?_, by decide +kernel⟩
+  intro a ha
+  simp only [List.mem_cons, List.mem_nil_iff, or_false] at ha
+  rcases ha with rfl | rfl | rfl <;> rfl
+
+/-- identifiers and life status over closed runs (no hypotheses at all) -/
+theorem C13_closed_run_ids_and_life (s : Sim) (xs : List ClosedEv) :
+    (closedRun s xs).pop.length = s.pop.length + sumNat (xs.map (·.births)) ∧
+    ∀ (i : Nat) (a : Agent), s.pop[i]? = some a →
+      ∃ a', (closedRun s xs).pop[i]? = some a' ∧ (a.alive = false → a'.alive = false) ∧
+        (a.present = false → a'.present = false) :=
+  ⟨closedRun_length xs s, closedRun_life xs s⟩
 
 /-- an inactive agent is not touched by a step at all -/
 theorem C13_step_inactive_frozen (s : Sim) (ev : Events) (h0 : ∀ a ∈ s.pop, Good a) (hb : (simStep s ev).bad = false)
